@@ -512,7 +512,7 @@ def run(tier, seed):
     ntraces = simw * simn
     tlc.scratch_dir()          # create the shared scratch before the threads start
     with ThreadPoolExecutor(max_workers=2) as tp:
-        f_mc = tp.submit(tlc.run, 'MC_Criteria', cfg, workers=4 if quick else 8,
+        f_mc = tp.submit(tlc.run, 'MC_Criteria', cfg, workers=4,
                          coverage=True, timeout=840)
         f_sim = tp.submit(tlc.run, 'MC_Criteria', 'Criteria_big.cfg', workers=simw,
                           simulate=dict(num=simn), depth=19, seed=seed + 1, timeout=840)
